@@ -58,7 +58,7 @@ func checkC05(c *Ctx, r *Report) {
 			// request arm: states[k] receiving from w.reqch
 			armIdx := -1
 			for i, st := range sel.States {
-				if st.Dir == types.RecvOnly && isLoadOfField(dwT + ".reqch")(strip2(st.Chan)) {
+				if st.Dir == types.RecvOnly && isLoadOfField(dwT+".reqch")(strip2(st.Chan)) {
 					armIdx = i
 				}
 			}
@@ -94,7 +94,10 @@ func checkC05(c *Ctx, r *Report) {
 					return false
 				}
 				// the closed-channel path (ok == false) leaves the worker
-				closedEdge := edgeBool(func(v ssa.Value) bool { e, ok := v.(*ssa.Extract); return ok && e.Tuple == ssa.Value(sel) && e.Index == 1 }, false)
+				closedEdge := edgeBool(func(v ssa.Value) bool {
+					e, ok := v.(*ssa.Extract)
+					return ok && e.Tuple == ssa.Value(sel) && e.Index == 1
+				}, false)
 				q := &Cut{Fn: f, FromEdges: armEdges, Sep: events, EdgeCut: closedEdge, Target: func(in ssa.Instruction) bool {
 					_, isRet := in.(*ssa.Return)
 					return isRet || in == ssa.Instruction(sel)
@@ -172,7 +175,7 @@ func checkC05(c *Ctx, r *Report) {
 		var pops []ssa.Instruction
 		allInstrs(f, func(in ssa.Instruction) {
 			if u, ok := in.(*ssa.UnOp); ok && u.Op == token.MUL {
-				if ia, ok := u.X.(*ssa.IndexAddr); ok && isLoadOfField(dlT + ".waitingOnFd")(strip2(ia.X)) {
+				if ia, ok := u.X.(*ssa.IndexAddr); ok && isLoadOfField(dlT+".waitingOnFd")(strip2(ia.X)) {
 					if k, isC := constInt(ia.Index); isC && k == 0 {
 						pops = append(pops, in)
 					}
@@ -261,7 +264,10 @@ func checkC05(c *Ctx, r *Report) {
 	}
 	if f := r3.need(dl("addCheckPeerLimit")); f != nil {
 		calls := findInstrs(f, callPred(dl("addCheckFdLimit")))
-		incP := func(in ssa.Instruction) bool { _, ok := in.(*ssa.MapUpdate); return ok && isFieldWrite(in, dlT+".activePerPeer") }
+		incP := func(in ssa.Instruction) bool {
+			_, ok := in.(*ssa.MapUpdate)
+			return ok && isFieldWrite(in, dlT+".activePerPeer")
+		}
 		for _, cl := range calls {
 			w, n := (&Cut{Fn: f, Target: isInstr(cl), Sep: incP}).Run(c)
 			r3.Check(w == "", dl("addCheckPeerLimit")+": FD stage only after taking the peer token", instrPos(cl), n+1, "", "", w)
@@ -381,18 +387,24 @@ func checkC05(c *Ctx, r *Report) {
 		r4.Check(okL, "(*"+dsT+").Dial: reference drop and teardown in one critical section", f.Pos(), len(ends)+1, "", "", "")
 	}
 	if f := r4.need("(*" + dsT + ").getActiveDial"); f != nil {
-		gos := findInstrs(f, func(in ssa.Instruction) bool { _, ok := in.(*ssa.Go); return ok && isDynCallOfField(in, dsT+".dialWorker") })
+		gos := findInstrs(f, func(in ssa.Instruction) bool {
+			_, ok := in.(*ssa.Go)
+			return ok && isDynCallOfField(in, dsT+".dialWorker")
+		})
 		miss := edgeBool(func(v ssa.Value) bool {
 			e, ok := v.(*ssa.Extract)
 			if !ok || e.Index != 1 {
 				return false
 			}
 			lk, ok := e.Tuple.(*ssa.Lookup)
-			return ok && isLoadOfField(dsT + ".dials")(strip2(lk.X))
+			return ok && isLoadOfField(dsT+".dials")(strip2(lk.X))
 		}, false)
 		r4.guard(f, "go dialWorker", gos, "no active dial for the peer", miss, nil)
 		for _, g := range gos {
-			w, n := (&Cut{Fn: f, From: []ssa.Instruction{g}, Sep: func(in ssa.Instruction) bool { _, ok := in.(*ssa.MapUpdate); return ok && isFieldWrite(in, dsT+".dials") },
+			w, n := (&Cut{Fn: f, From: []ssa.Instruction{g}, Sep: func(in ssa.Instruction) bool {
+				_, ok := in.(*ssa.MapUpdate)
+				return ok && isFieldWrite(in, dsT+".dials")
+			},
 				Target: func(in ssa.Instruction) bool { _, ok := in.(*ssa.Return); return ok }}).Run(c)
 			r4.Check(w == "", "getActiveDial: a started worker is registered in dials", instrPos(g), n+1, "", "", w)
 		}
@@ -443,18 +455,21 @@ func checkC05(c *Ctx, r *Report) {
 			}
 			w, n := (&Cut{Fn: f, From: lk, Target: isInstr(d), Sep: sameEntry}).Run(c)
 			r5.Check(w == "", loopK+": the entry is marked dialed before its dial is started", instrPos(d), n+1, "", "a joining request re-queues an address whose dial is already in flight: the address is handed to the transport twice", w)
-			r5.guard(f, "dialNextAddr", []ssa.Instruction{d}, "entry found in trackedDials", edgeBool(func(v ssa.Value) bool { e, ok := v.(*ssa.Extract); return ok && e.Tuple == lk[0].(ssa.Value) && e.Index == 1 }, true), nil)
+			r5.guard(f, "dialNextAddr", []ssa.Instruction{d}, "entry found in trackedDials", edgeBool(func(v ssa.Value) bool {
+				e, ok := v.(*ssa.Extract)
+				return ok && e.Tuple == lk[0].(ssa.Value) && e.Index == 1
+			}, true), nil)
 		}
 		// the join path re-queues only entries not yet dialed
 		upd := findInstrs(f, callPred("(*"+swarmP+".dialQueue).UpdateOrAdd"))
 		r5.guard(f, "dq.UpdateOrAdd (join)", upd, "!ad.dialed", edgeBool(isLoadOfField(swarmP+".addrDial.dialed"), false), nil)
 	}
-	r5.onlyCallers("call dialNextAddr", []string{"(*"+swarmP+".Swarm).dialNextAddr"}, c.FnsOfPkg(swarmP), loopK)
+	r5.onlyCallers("call dialNextAddr", []string{"(*" + swarmP + ".Swarm).dialNextAddr"}, c.FnsOfPkg(swarmP), loopK)
 	r5.onlyIn("write addrDial.dialed", fieldWritePred(swarmP+".addrDial.dialed"), c.FnsOfPkg(swarmP), loopK)
 
 	// ---- R6 ---------------------------------------------------------------
 	r6 := r.Rule("C05-R6", "E3", 3, "route to the transport: limitedDial <- dialNextAddr <- worker loop; AddDialJob only from limitedDial; dialFunc only from executeDial")
-	r6.onlyCallers("call limitedDial", []string{"(*"+swarmP+".Swarm).limitedDial"}, c.FnsOfPkg(swarmP), "(*"+swarmP+".Swarm).dialNextAddr")
+	r6.onlyCallers("call limitedDial", []string{"(*" + swarmP + ".Swarm).limitedDial"}, c.FnsOfPkg(swarmP), "(*"+swarmP+".Swarm).dialNextAddr")
 	r6.onlyCallers("call AddDialJob", []string{dl("AddDialJob")}, c.FnsOfPkg(swarmP), "(*"+swarmP+".Swarm).limitedDial")
 	r6.onlyIn("call dialFunc", func(in ssa.Instruction) bool { return isDynCallOfField(in, dlT+".dialFunc") }, c.FnsOfPkg(swarmP), dl("executeDial"))
 
